@@ -120,20 +120,23 @@ def iter_atomic_values(xsd_type: XsdTypeProtocol) -> Iterator[aliases.AtomicType
     atomic_values = _ATOMIC_VALUES[xsd_type.xsd_version]
     if xsd_type.name in atomic_values:
         yield atomic_values[xsd_type.name]
+        return
     elif xsd_type.is_simple() or (simple_type := xsd_type.simple_type) is None:
-        base_type: Optional[XsdTypeProtocol]
-        if xsd_type.is_list():
-            base_type = getattr(xsd_type, 'item_type', None)
-            if base_type is not None and base_type.name not in atomic_values:
-                base_type = _builtin_base(base_type)
-        else:
-            base_type = _builtin_base(xsd_type)
-        if base_type is not None and base_type.name in atomic_values:
-            yield atomic_values[base_type.name]
-        else:
-            yield from _iter_values(xsd_type.root_type, 1)
+        simple_type = xsd_type
     elif simple_type.name in atomic_values:
         yield atomic_values[simple_type.name]
+        return
+
+    base_type: Optional[XsdTypeProtocol]
+    if simple_type.is_list():
+        base_type = getattr(simple_type, 'item_type', None)
+        if base_type is not None and base_type.name not in atomic_values:
+            base_type = _builtin_base(base_type)
+    else:
+        base_type = _builtin_base(simple_type)
+
+    if base_type is not None and base_type.name in atomic_values:
+        yield atomic_values[base_type.name]
     else:
         yield from _iter_values(simple_type.root_type, 1)
 
